@@ -17,10 +17,10 @@ func init() {
 	core.Register(&core.Prop{
 		ID:    "C08",
 		Level: "exploration",
-		Rule: "full rate-limited flows client -> attester.VerifyRequest -> issuer.Evaluate -> attester.FinalizeIndex for 4 clients x 4 origins (two origins deliberately share one index key) x R requests each with fresh blind (incl. 1, N-1, leading-zero and > N encodings), nonce and challenge. " +
+		Rule: "full rate-limited flows client -> attester.VerifyRequest -> issuer.Evaluate -> attester.FinalizeIndex for 4 clients x 4 origins (two origins deliberately share one index key) x R requests each with fresh blind, each flow run against a fresh attester and against one long-lived attester per worker on which the client reuses one anonymous origin ID for all origins (incl. 1, N-1, leading-zero and > N encodings), nonce and challenge. " +
 			"Oracle: every returned index equals HKDF-SHA-384(salt = compress(client key), ikm = compress(k_o * client key), info = \"IssuerOriginAlias\", 48) with k_o = hash_to_field(bytes(index key D)||0x00||0x0003||\"IssuerBlind\"), all computed by the reference (own XMD, own HKDF, std curve); Evaluate's second value equals compress(k_o * request key); indices of distinct clients or distinct index keys differ; origins sharing an index key give equal indices. " +
 			"distinct_nontrivial = distinct (client, origin, blind class) triples",
-		Floors:      []string{"index_matches_reference", "blinded_request_key_matches_reference", "repeat_same_index", "distinct_pairs_differ", "shared_index_key_equal", "edge_blinds"},
+		Floors:      []string{"index_matches_reference", "blinded_request_key_matches_reference", "repeat_same_index", "distinct_pairs_differ", "shared_index_key_equal", "edge_blinds", "index_matches_reference_on_used_attester"},
 		Assumptions: []string{"crypto/elliptic, crypto/hmac and the SHA-2 family of the standard library are the trusted base of the reference"},
 		Run:         runC08,
 	})
@@ -82,6 +82,9 @@ func runC08(c *core.Ctx) {
 	}
 
 	R := c.Pick(8, 40)
+	// one long-lived attester per worker process: every client uses the SAME anonymous origin ID for all its
+	// origins there, so state accumulated by earlier requests (of this or another origin) is in place
+	persistent := type3.NewRateLimitedAttester(newMemCache())
 	for ci := 0; ci < nClients; ci++ {
 		for o := 0; o < nOrigins; o++ {
 			for rep := 0; rep < R; rep++ {
@@ -162,6 +165,22 @@ func runC08(c *core.Ctx) {
 						return
 					}
 					c.Class("index_matches_reference")
+					// the same request against the long-lived attester
+					if err := persistent.VerifyRequest(*st.Request(), blind, st.ClientKey(), []byte("shared")); err != nil {
+						bad("verify-error-persistent", "the long-lived attester rejected the honest request: "+err.Error())
+						return
+					}
+					pidx, err := persistent.FinalizeIndex(st.ClientKey(), blind, brk, []byte(fmt.Sprintf("shared-anon-of-client-%d", ci)))
+					if err != nil {
+						bad("finalize-error-persistent", "FinalizeIndex on the long-lived attester failed: "+err.Error())
+						return
+					}
+					if !bytes.Equal(pidx, want) {
+						d["got"], d["want"] = core.Hex(pidx), core.Hex(want)
+						bad("index-depends-on-history", "on an attester that has served other requests of this client the ID differs from the reference (it must depend on the client key and the index key only)")
+						return
+					}
+					c.Class("index_matches_reference_on_used_attester")
 					if rep > 0 {
 						c.Class("repeat_same_index")
 					}
